@@ -104,7 +104,7 @@ pub enum Init {
 /// `verify_init` of aggregator `id` from wire bytes; emits the `pop vinit` case
 pub fn vinit(out: &mut Out, bits: usize, rep: &Report, key: &[u8; 32], id: usize, prefixes: &[Vec<bool>]) -> Init {
     let vdaf: Pop = Poplar1::new(bits);
-    let Ok(ap) = Poplar1AggregationParam::try_from_prefixes(prefixes.iter().map(|p| IdpfInput::from_bools(p)).collect()) else { return Init::Err };
+    let Ok(ap) = Poplar1AggregationParam::try_from_prefixes(mk_prefixes(prefixes)) else { return Init::Err };
     // the shares are decoded for the height they were made for (`rep.bits`)
     let dec: Pop = Poplar1::new(rep.bits);
     let (Ok(public), Ok(share)) = (Poplar1PublicShare::get_decoded_with_param(&dec, &rep.public), Poplar1InputShare::<32>::get_decoded_with_param(&(&dec, id), &rep.shares[id.min(1)])) else {
@@ -221,7 +221,7 @@ pub struct Transit<'a> {
 
 pub fn verify(out: &mut Out, bits: usize, rep: &Report, key: &[u8; 32], prefixes: &[Vec<bool>], transit: &Transit) -> Outcome {
     let fail = |s| Outcome { outputs: None, failed_at: Some(s) };
-    let Ok(ap) = Poplar1AggregationParam::try_from_prefixes(prefixes.iter().map(|p| IdpfInput::from_bools(p)).collect()) else { return fail("agg-param") };
+    let Ok(ap) = Poplar1AggregationParam::try_from_prefixes(mk_prefixes(prefixes)) else { return fail("agg-param") };
     let mut states = vec![];
     let mut v1 = vec![];
     for id in 0..2 {
@@ -328,7 +328,34 @@ fn candidates(rng: &mut Sm, inputs: &[Vec<bool>], level: usize, extra: usize) ->
 // C03
 // ---------------------------------------------------------------------------------------------
 
-fn c03_batch(out: &mut Out, rng: &mut Sm, bits: usize, batch: usize, nlevels: usize) {
+/// candidate prefixes as an application may hold them: every second one is cut out of a longer packed bit
+/// vector, so it is stored at a non-zero bit offset inside its backing words (equal, as a value, to the
+/// aligned one)
+fn mk_prefixes(prefixes: &[Vec<bool>]) -> Vec<IdpfInput> {
+    prefixes
+        .iter()
+        .enumerate()
+        .map(|(k, p)| {
+            if k % 2 == 0 {
+                IdpfInput::from_bools(p)
+            } else {
+                // offset one with a zero in front (the slice of a packed list of candidates whose
+                // neighbour ends in 0), or a larger offset behind an alternating pattern
+                let (off, zeros) = if k % 4 == 1 { (1, true) } else { (1 + (k * 7 + p.len()) % 9, false) };
+                let mut bv: bitvec::vec::BitVec<usize, bitvec::order::Lsb0> = bitvec::vec::BitVec::new();
+                for i in 0..off {
+                    bv.push(!zeros && i % 2 == 0);
+                }
+                for b in p {
+                    bv.push(*b);
+                }
+                IdpfInput::from(bv[off..].to_bitvec())
+            }
+        })
+        .collect()
+}
+
+fn c03_batch(out: &mut Out, rng: &mut Sm, bits: usize, batch: usize, nlevels: usize, dense: bool) {
     let ctx = rng.bytes(rng.0 as usize % 5);
     let key: [u8; 32] = rng.bytes(32).try_into().unwrap();
     // inputs with repetitions (heavy hitters)
@@ -357,8 +384,13 @@ fn c03_batch(out: &mut Out, rng: &mut Sm, bits: usize, batch: usize, nlevels: us
     }
     let vdaf: Pop = Poplar1::new(bits);
     for &level in &levels {
-        let cands = candidates(rng, &inputs, level, 2);
-        let ap = Poplar1AggregationParam::try_from_prefixes(cands.iter().map(|p| IdpfInput::from_bools(p)).collect()).unwrap();
+        // `dense`: every prefix of the level is a candidate (the first rounds of heavy hitters)
+        let cands: Vec<Vec<bool>> = if dense {
+            (0..1usize << (level + 1)).map(|x| (0..=level).map(|j| (x >> (level - j)) & 1 == 1).collect()).collect()
+        } else {
+            candidates(rng, &inputs, level, 2)
+        };
+        let ap = Poplar1AggregationParam::try_from_prefixes(mk_prefixes(&cands)).unwrap();
         let mut aggs = [vdaf.aggregate_init(&ap), vdaf.aggregate_init(&ap)];
         let mut all = true;
         for rep in &reports {
@@ -439,7 +471,10 @@ pub fn run_c03(out: &mut Out, thorough: bool, seed: u64) {
         &[(1, 3, 1), (2, 4, 2), (3, 4, 3), (5, 3, 2), (8, 3, 2), (16, 2, 2), (33, 1, 2)]
     };
     for &(bits, batch, nlevels) in sizes {
-        c03_batch(out, &mut rng, bits, batch, nlevels);
+        c03_batch(out, &mut rng, bits, batch, nlevels, false);
+    }
+    for &(bits, batch) in if thorough { &[(2usize, 3usize), (3, 4), (4, 4), (5, 3)][..] } else { &[(3usize, 3usize), (4, 3)][..] } {
+        c03_batch(out, &mut rng, bits, batch, bits.min(4), true);
     }
     for (bits, batch, t) in [(4usize, 30usize, 3u64), (8, 40, 4), (12, 25, 2)] {
         heavy_hitters(out, &mut rng, bits, if thorough { batch * 2 } else { batch }, t);
@@ -519,6 +554,82 @@ fn add_to_elem(bytes: &mut [u8], delta: u64, wide: bool) {
         let s = *b as u128 + (carry & 0xff);
         *b = s as u8;
         carry = (carry >> 8) + (s >> 8);
+    }
+}
+
+/// C04, the malicious client: the IDPF is programmed by hand (public `Idpf::gen`) with arbitrary data values
+/// and authenticators at every level, and the input shares carry hand-made correlated randomness (all zero,
+/// random, zero `A` with random `B`).  Honest aggregators, honest channel.  Whenever both finish, the
+/// summed output must be zero or one-hot.
+fn c04_malicious(out: &mut Out, rng: &mut Sm, bits: usize, thorough: bool) {
+    use prio::idpf::Idpf;
+    use prio::vdaf::poplar1::Poplar1IdpfValue;
+    let ctx = rng.bytes(3);
+    let nonce: [u8; 16] = rng.bytes(16).try_into().unwrap();
+    let input = rand_bits(rng, bits);
+    let p64 = 0xffff_ffff_0000_0001u64;
+    let data_choices: [u64; 4] = [2, p64 - 1, 0, 3 + rng.below(1000)];
+    let shapes: &[(&str, usize)] = &[("all-zero corr", 0), ("random corr", 1), ("zero A, random B", 2)];
+    for (di, &d) in data_choices.iter().enumerate() {
+        if !thorough && di == 3 && bits > 3 {
+            continue;
+        }
+        let idpf = Idpf::<Poplar1IdpfValue<Field64>, Poplar1IdpfValue<Field255>>::new((), ());
+        let auth = 1 + rng.below(1 << 40);
+        let g = catch(AssertUnwindSafe(|| {
+            idpf.gen(
+                &IdpfInput::from_bools(&input),
+                (0..bits - 1).map(|_| Poplar1IdpfValue::new([Field64::from(d), Field64::from(auth)])),
+                Poplar1IdpfValue::new([Field255::from(d), Field255::from(auth)]),
+                &ctx,
+                &nonce,
+            )
+        }));
+        let Ok(Ok((public, keys))) = g else { continue };
+        let public = public.get_encoded().unwrap();
+        for &(shape, kind) in shapes {
+            let shares: [Vec<u8>; 2] = [0usize, 1].map(|id| {
+                let mut b = Vec::new();
+                let k: &[u8; 16] = keys[id].as_ref();
+                b.extend_from_slice(k);
+                b.extend_from_slice(&rng.bytes(32));
+                for _ in 0..bits - 1 {
+                    for which in 0..2 {
+                        let x = if kind == 0 || (kind == 2 && which == 0) { 0 } else { rng.next() % p64 };
+                        b.extend_from_slice(&x.to_le_bytes());
+                    }
+                }
+                for which in 0..2 {
+                    let mut e = [0u8; 32];
+                    if !(kind == 0 || (kind == 2 && which == 0)) {
+                        e[..31].copy_from_slice(&rng.bytes(31));
+                    }
+                    b.extend_from_slice(&e);
+                }
+                b
+            });
+            let rep = Report { bits, ctx: ctx.clone(), nonce, public: public.clone(), shares };
+            let levels: Vec<usize> = if bits == 1 { vec![0] } else { vec![0, bits / 2, bits - 1] };
+            for &level in &levels {
+                let cands: Vec<Vec<bool>> = if level < 3 {
+                    (0..1usize << (level + 1)).map(|x| (0..=level).map(|j| (x >> (level - j)) & 1 == 1).collect()).collect()
+                } else {
+                    let mut set: std::collections::BTreeSet<Vec<bool>> = Default::default();
+                    set.insert(input[..level + 1].to_vec());
+                    let mut sib = input[..level + 1].to_vec();
+                    sib[level] = !sib[level];
+                    set.insert(sib);
+                    set.insert(rand_bits(rng, level + 1));
+                    set.into_iter().collect()
+                };
+                for _ in 0..2 {
+                    let key: [u8; 32] = rng.bytes(32).try_into().unwrap();
+                    let o = verify(out, bits, &rep, &key, &cands, &Transit::default());
+                    check_outputs(out, &format!("malicious client: data value {} at every level, {}; bits={} level={} candidates={}", d, shape, bits, level, prefixes_str(&cands)), &o);
+                    out.count("c04.malicious");
+                }
+            }
+        }
     }
 }
 
@@ -736,6 +847,9 @@ pub fn run_c04(out: &mut Out, thorough: bool, seed: u64) {
         for _ in 0..(if thorough { 3 } else { 1 }) {
             c04_report(out, &mut rng, bits, thorough);
         }
+        if bits <= 9 {
+            c04_malicious(out, &mut rng, bits, thorough);
+        }
     }
     out.samples = out.ops.iter().step_by(out.ops.len() / 6 + 1).map(|s| s.chars().take(300).collect()).collect();
 }
@@ -773,8 +887,9 @@ pub fn c17(out: &mut Out, rng: &mut Sm, thorough: bool) {
 /// aggregator, or among the aggregators, makes verification fail
 pub fn c18(out: &mut Out, rng: &mut Sm, thorough: bool) {
     let sizes: &[usize] = if thorough { &[1, 2, 4, 9, 33] } else { &[1, 3, 9] };
-    for &bits in sizes {
-        let ctx = rng.bytes(4);
+    for (k, &bits) in sizes.iter().enumerate() {
+        // short and application-sized contexts; the substituted context differs in its LAST byte
+        let ctx = rng.bytes([4usize, 66, 200, 55, 1000][k % 5]);
         let key: [u8; 32] = rng.bytes(32).try_into().unwrap();
         let nonce: [u8; 16] = rng.bytes(16).try_into().unwrap();
         let input = rand_bits(rng, bits);
@@ -821,7 +936,7 @@ pub fn c18(out: &mut Out, rng: &mut Sm, thorough: bool) {
             let ok = run(out, [honest.clone(), honest1.clone()]);
             out.oracle(ok, || format!("poplar1 binding bits={} level={} honest", bits, level), || "honest run rejected".into());
             let mut ctx2 = ctx.clone();
-            ctx2[0] ^= 1;
+            *ctx2.last_mut().unwrap() ^= 1;
             let mut nonce2 = nonce;
             nonce2[15] ^= 0x80;
             let mut key2 = key;
